@@ -277,7 +277,7 @@ def check_grid_case(case, seed, st, mode):
         obs = ("exc", "%s: %s" % (type(e).__name__, str(e)[:200]))
     st.outcomes[("grid", mode, verdict, obs[0])] += 1
     cj = {"kind": "grid", "case": list(case), "seed": seed, "mode": mode, "text": text}
-    kinds = "%s %s%s%s" % (case[0], case[1], ("+" + case[2]) if case[2] else "", "" if case[0] in ("single", "anon2", "defblock") else (" same" if case[3] else " different"))
+    kinds = "%s %s%s%s" % (case[0], case[1], ("+" + case[2]) if case[2] else "", "" if case[0] in ("single", "defblock") else (" same" if case[3] else " different"))
     if verdict == "reject":
         if obs[0] != "reject":
             st.violation("grid:accepted " + kinds, cj, "compile_verdict: duplicate block name / named block inside def or call is not rejected with CompileException", expected="CompileException", observed=list(obs))
@@ -291,7 +291,11 @@ def check_grid_case(case, seed, st, mode):
     exp, _ref = ir.reference(prog, ctx)
     st.oracles["reference"] += 1
     if obs != exp:
-        st.violation("grid:" + ("rejected " if obs[0] == "reject" else "wrong-output ") + kinds, cj, "reference: a legal arrangement of blocks is rejected or renders differently", expected=list(exp), observed=list(obs))
+        if obs[0] == "reject" and "__M_anon_" in obs[1] and case[0] == "anon2" and case[3]:
+            sig = "grid:anonymous blocks starting on one line rejected as duplicates of __M_anon_<line>"
+        else:
+            sig = "grid:" + ("rejected " if obs[0] == "reject" else "wrong-output ") + kinds
+        st.violation(sig, cj, "reference: a legal arrangement of blocks is rejected or renders differently", expected=list(exp), observed=list(obs))
         return False
     return True
 
